@@ -71,13 +71,31 @@ theorem logonReply_base (s : Sess) (m : InMsg) (flag : Bool) :
          else sendLogonRe (replyBase s m) flag m)
       else s := rfl
 
-theorem logonMsg_141 (s : Sess) : (logonMsg s true).f.get? 141 = some "Y" := by
-  unfold logonMsg mkOut Fields.get?
+theorem logonMsgX_141 (s : Sess) (nx : Option Int) : (logonMsgX s true nx).f.get? 141 = some "Y" := by
+  unfold logonMsgX mkOut Fields.get?
   simp
 
-theorem logonMsg_mem141 (s : Sess) : (141, "Y") ∈ (logonMsg s true).f := by
-  unfold logonMsg mkOut
+theorem logonMsgX_mem141 (s : Sess) (nx : Option Int) : (141, "Y") ∈ (logonMsgX s true nx).f := by
+  unfold logonMsgX mkOut
   simp
+
+theorem logonMsgX_no141 (s : Sess) (nx : Option Int) : (logonMsgX s false nx).f.get? 141 = none := by
+  unfold logonMsgX mkOut Fields.get? nxTag
+  cases nx <;> by_cases h : s.cfg.applVer.isEmpty = true <;> simp [h, List.find?]
+
+theorem logonMsg_141 (s : Sess) : (logonMsg s true).f.get? 141 = some "Y" := logonMsgX_141 s _
+theorem logonMsg_mem141 (s : Sess) : (141, "Y") ∈ (logonMsg s true).f := logonMsgX_mem141 s _
+theorem logonMsgRe_mem141 (s : Sess) (m : InMsg) : (141, "Y") ∈ (logonMsgRe s true m).f := logonMsgX_mem141 s _
+
+/-- a Logon whose ResetSeqNumFlag reads `Y` has tag 141: its tag 789 is not evaluated -/
+theorem has141_of_flag (m : InMsg) (h : logonResetFlag m = true) : m.f.has 141 = true := by
+  unfold logonResetFlag getBool at h
+  cases hg : m.f.get? 141 with
+  | none => rw [hg] at h; simp at h
+  | some v => exact Fields.has_of_get? _ _ v hg
+
+theorem nxEval_flag (s : Sess) (m : InMsg) (ns : Int) (h : logonResetFlag m = true) : nxEval s m ns = s := by
+  unfold nxEval; rw [has141_of_flag m h]; simp
 
 theorem logonMsg_kind (s : Sess) (b : Bool) : (logonMsg s b).kind = "A" := rfl
 
@@ -115,12 +133,12 @@ theorem sendLogon_reset (s : Sess) :
 
 /-- … and in reply to the Logon `m` (the acceptor's answer) -/
 theorem sendLogonRe_reset (s : Sess) (m : InMsg) :
-    let reply : OutMsg := { stamp s ((logonMsg s true).inReplyTo m) with seq := 1 }
+    let reply : OutMsg := { stamp s ((logonMsgRe s true m).inReplyTo m) with seq := 1 }
     let s' := sendLogonRe s true m
     s'.store.sender = 2 ∧ s'.store.target = 1 ∧ s'.store.msgs = (if s.cfg.persist then [(1, reply)] else []) ∧ s'.sentReset = true
     ∧ s'.cfg = s.cfg ∧ s'.st = s.st ∧ s'.hb = s.hb ∧ s'.store.epoch = s.store.epoch + 1
     ∧ (s.out = true → s'.log = .wire reply :: (if s.cfg.persist then .saved 1 "A" (resendable reply) else .incS) :: .reset :: s.log) :=
-  dropAndSend_reset s ((logonMsg s true).inReplyTo m) rfl (logonMsg_141 s)
+  dropAndSend_reset s ((logonMsgRe s true m).inReplyTo m) rfl (logonMsgX_141 s _)
 
 theorem replyBase_frame (s : Sess) (m : InMsg) :
     (replyBase s m).cfg = s.cfg ∧ (replyBase s m).st = s.st ∧ (replyBase s m).store = s.store ∧ (replyBase s m).out = s.out
@@ -135,9 +153,10 @@ theorem replyBase_frame (s : Sess) (m : InMsg) :
     Logon consumed number 1: both counters are 2 afterwards, `sentReset` is down again. -/
 theorem logon_reset_received (s : Sess) (m : InMsg) (hi : s.cfg.initiator = false)
     (h5 : (s.cfg.bs == 5 && !m.f.has 1137) = false) (hg : GateMsg s.cfg m) (ht : TimeGate s m)
-    (hv : callbackVerdict m = none) (hf : logonResetFlag m = true) (hsr : s.sentReset = false) (h34 : getInt m 34 = .val 1) :
-    ∃ base : Sess, base.cfg = s.cfg ∧
-    let reply : OutMsg := { stamp base ((logonMsg base true).inReplyTo m) with seq := 1 }
+    (hv : callbackVerdict m = none) (hf : logonResetFlag m = true) (hsr : s.sentReset = false) (h34 : getInt m 34 = .val 1)
+    (hnx : nxAbove s.cfg m 1 = false) :
+    ∃ base : Sess, base.cfg = s.cfg ∧ base.store.target = 1 ∧
+    let reply : OutMsg := { stamp base ((logonMsgRe base true m).inReplyTo m) with seq := 1 }
     let r := handleLogon s m
     r.2 = none ∧ r.1.store.sender = 2 ∧ r.1.store.target = 2 ∧ r.1.sentReset = false
     ∧ r.1.store.msgs = (if s.cfg.persist then [(1, reply)] else [])
@@ -156,6 +175,7 @@ theorem logon_reset_received (s : Sess) (m : InMsg) (hi : s.cfg.initiator = fals
   obtain ⟨s3, hs3⟩ : ∃ x, x = dropAndReset s2 := ⟨_, rfl⟩
   have a3 : s3.cfg = s.cfg ∧ s3.st = s.st ∧ s3.out = s.out ∧ s3.store.target = 1 ∧ Obs.reset ∈ s3.log := by
     rw [hs3]; exact ⟨a2.1, a2.2.1, a2.2.2.2, rfl, by simp [dropAndReset, Sess.setToSend, Sess.storeReset, Sess.emit]⟩
+  have a3s : s3.store.sender = 1 := by rw [hs3]; rfl
   have c3 := a3.1
   have e2 : verifySelect s3 m false true false = (s3, none) := by
     rw [verifySelect_complete s3 m false true false (by rw [c3]; exact hg.begin) (by rw [c3]; exact hg.comp)
@@ -177,10 +197,11 @@ theorem logon_reset_received (s : Sess) (m : InMsg) (hi : s.cfg.initiator = fals
   generalize hs4 : sendLogonRe (replyBase s3 m) true m = s4 at q1 q2 q3 q4 q5 q6 q7 q8 q9 e3 hrel
   -- stage 4: notification and consuming the Logon's number
   obtain ⟨s5, hs5⟩ : ∃ x, x = ((s4.setSentReset false).emit (.armPeer (1200 * s4.hb))).emit .onLogon := ⟨_, rfl⟩
-  have e4 : logonFinish s4 m = (incrTarget s5, none) := by
+  have e4 : ∀ ns, logonFinish s4 m ns = (incrTarget s5, none) := by
+    intro ns
     unfold logonFinish
     simp only []
-    rw [← hs5]
+    rw [nxEval_flag _ m ns hf, ← hs5]
     have : checkTooHigh s5 m = none := by
       unfold checkTooHigh; rw [h34]; simp only []
       rw [if_neg]; rw [hs5]; show ¬ (1 : Int) > s4.store.target; rw [q2]; omega
@@ -190,12 +211,15 @@ theorem logon_reset_received (s : Sess) (m : InMsg) (hi : s.cfg.initiator = fals
     rw [if_neg (by rw [h5]; simp), hs1]
     simp only [e1, hreset, if_true]
     rw [← hs3]
-    simp only [e2, e3, e4]
-  refine ⟨replyBase s3 m, b1.trans c3, ?_⟩
+    have hnr : logonRefuses s3 m (logonResetFlag m) = false := by
+      unfold logonRefuses nxRefuses; rw [c3, a3s, hnx, Bool.and_false]
+    unfold logonTail
+    simp only [e2, hnr, Bool.false_eq_true, if_false, e3, e4]
+  refine ⟨replyBase s3 m, b1.trans c3, by rw [b3]; exact a3.2.2.2.1, ?_⟩
   intro reply r
   have hr : r = (incrTarget s5, none) := hl
   rw [hr, hs5]
-  refine ⟨rfl, ?_, ?_, rfl, ?_, logonMsg_mem141 _, rfl, rfl, ?_, ?_, ?_⟩
+  refine ⟨rfl, ?_, ?_, rfl, ?_, logonMsgRe_mem141 _ _, rfl, rfl, ?_, ?_, ?_⟩
   · show s4.store.sender = 2; exact q1
   · show s4.store.target + 1 = 2; rw [q2]; rfl
   · show s4.store.msgs = _; rw [q3, b1, c3]
@@ -255,8 +279,12 @@ theorem logon_echo_no_reset (s : Sess) (m : InMsg) (hi : s.cfg.initiator = true)
           simp only []
           have : logonReply s4 m (logonResetFlag m) = s4 := by
             unfold logonReply; rw [a2.1]; rfl
-          rw [this]
-          exact h2.trans (relF_logonFinish _ m (by simp))
+          unfold logonTail
+          split
+          · have : logonRefused s4 m = s4 := by unfold logonRefused; rw [a2.1]; rfl
+            rw [this]; exact h2
+          · rw [this]
+            exact h2.trans (relF_logonFinish _ m _ (by simp))
     · rw [he]; exact RelF.refl s
 
 /-- the same for the acceptor in an established session (after `fix:` cbdc133; ResetOnLogon off — with it every Logon
@@ -312,7 +340,10 @@ theorem logon_echo_no_reset_acceptor (s : Sess) (m : InMsg) (hi : s.cfg.initiato
             cases logonResetFlag m
             · exact hb.2.2.trans (relF_sendLogonRe _ false m (Or.inr rfl))
             · exact hb.2.2
-          exact (h2.trans hr).trans (relF_logonFinish _ m (by simp))
+          unfold logonTail
+          split
+          · exact h2.trans (relF_logonRefused _ m)
+          · exact (h2.trans hr).trans (relF_logonFinish _ m _ (by simp))
     · rw [he]; exact h1
 
 theorem shouldSendReset_fix40 (s : Sess) (h : s.cfg.bs = 0) : shouldSendReset s = false := by
@@ -512,9 +543,7 @@ theorem sendLogon_plain (s : Sess) :
     ∧ (s.out = true → s'.log = .wire reply :: (if s.cfg.persist then .saved s.store.sender "A" (resendable reply) else .incS) :: s.log) := by
   intro reply s'
   have hk : isAdminKind (stamp s (logonMsg s false)).kind = true := by rw [stamp_kind, logonMsg_kind]; decide
-  have h141 : (logonMsg s false).f.get? 141 = none := by
-    unfold logonMsg mkOut Fields.get?
-    simp
+  have h141 : (logonMsg s false).f.get? 141 = none := logonMsgX_no141 s _
   have hr : ((stamp s (logonMsg s false)).kind == "A" && (stamp s (logonMsg s false)).f.get? 141 == some "Y") = false := by
     rw [stamp_f, h141]; simp
   have : s' = sendQueued ((s.persistOut s.store.sender reply).setToSend [reply]) := by
